@@ -341,3 +341,13 @@ package circuitbreaker
 //@   ensures[each-once-in-order] gDoneN == n0 + len(cbs) && (forall j Int :: n0 <= j && j < gDoneN ==> sel(gDoneRecv, j) == dynptr(cbs[j - n0]) && sel(gDoneErr, j) == old(ctx.err))
 //@   loop 1:
 //@     invariant gDoneN == n0 + #i && (forall j Int :: n0 <= j && j < gDoneN ==> sel(gDoneRecv, j) == dynptr(cbs[j - n0]) && sel(gDoneErr, j) == old(ctx.err))
+
+// ---- C13: whole-set load. The grouping loop must cope with any element, including nil; the rebuild itself
+// (onRuleUpdate) is under a separate contract.
+//@ func onRuleUpdate(rawResRulesMap) err
+//@   assumed
+//@ func LoadRules(rules) (changed, err)
+//@   props C13
+//@   panics never
+//@   witness n = len(rules)
+//@   replay loadrules_nil
